@@ -26,6 +26,20 @@ def dump(exe, seed, count, i):
     p = subprocess.run([exe, "transcript", "--seed", str(seed), "--count", str(count), "--dump", str(i)], stdout=subprocess.PIPE, text=True)
     return json.loads(p.stdout)
 
+def exec_file(exe, path):
+    p = subprocess.run([exe, "transcript", "--op-file", path], stdout=subprocess.PIPE, stderr=subprocess.PIPE, text=True)
+    if p.returncode != 0:
+        raise SystemExit(f"vexec failed: {p.stderr[-2000:]}")
+    return json.loads(p.stdout)["output"]
+
+def replay_files():
+    d = os.path.join(ROOT, "replays", PID)
+    return sorted(os.path.join(d, f) for f in os.listdir(d) if f.endswith(".json")) if os.path.isdir(d) else []
+
+def replay_one(path, dirs, cfgs):
+    outs = {c: json.dumps(exec_file(os.path.join(dirs[c], "vexec"), path)) for c in cfgs}
+    return [c for c in cfgs if outs[c] != outs["base"]]
+
 def main():
     a = sys.argv[1:]
     def opt(name, default=None):
@@ -34,8 +48,7 @@ def main():
         doc = json.load(open(a[1]))
         cfgs = ["base"] + [c for c in doc["configs_differing"]]
         dirs = chk.build_many(cfgs, bins=("vexec",))
-        outs = {c: dump(os.path.join(dirs[c], "vexec"), doc["seed"], doc["count"], doc["index"])["output"] for c in cfgs}
-        if len({json.dumps(v) for v in outs.values()}) > 1:
+        if replay_one(a[1], dirs, cfgs):
             print(f"VIOLATION property={PID} replay={a[1]}")
             return 1
         print("replay: configurations agree on this operation")
@@ -52,13 +65,23 @@ def main():
     with cf.ThreadPoolExecutor(max_workers=min(len(cfgs), 4)) as ex:
         res = dict(zip(cfgs, ex.map(lambda c: run_transcript(os.path.join(dirs[c], "vexec"), seed, count, threads), cfgs)))
     base = res["base"]
+    # replay tier: every stored operation is re-executed under the selected configurations
+    replayed = 0
+    rviol = []
+    for f in replay_files():
+        replayed += 1
+        bad = replay_one(f, dirs, cfgs)
+        if bad:
+            print(f"VIOLATION property={PID} replay={f}")
+            print(f"  stored operation differs between base and {bad}", file=sys.stderr)
+            rviol.append({"signature": json.load(open(f)).get("signature"), "replay": f})
     kinds = {}
     for l in base:
         k = l.split(" ")[1]
         kinds[k] = kinds.get(k, 0) + 1
-    viol = []
-    seen_sig = set()
-    rc = 0
+    viol = list(rviol)
+    seen_sig = {v["signature"] for v in rviol}
+    rc = 1 if rviol else 0
     panics = [l for l in base if " PANIC " in l]
     for c in cfgs:
         if c == "base":
@@ -98,7 +121,7 @@ def main():
            "coverage": {"evaluations": len(base) * len(cfgs), "distinct_nontrivial": len(base) * (len(cfgs) - 1),
                         "rule": "One seeded trace of API-level operations (fields, binary fields, helper integers, points, decoders, EdDSA, ECDSA incl. truncated verification, Schnorr + ECDH, X25519/X448, hashes, FROST, LMS, maps) with abstract inputs (bytes / integers) is executed under every configuration; each operation's observable outputs (encodings, status words, booleans; validity predicates for results documented as one-of-several) are hashed into one transcript line. A case = one (operation, non-base configuration) pair; it is non-trivial by construction (it compares two different implementations of the same documented result). distinct = distinct (operation index, configuration).",
                         "samples": samples, "operations": len(base), "operation_kinds": kinds, "configurations": cfgs, "transcript_sha256": digest,
-                        "panics_in_base": len(panics), "violations": viol, "exhaustive": False},
+                        "panics_in_base": len(panics), "replayed_files": replayed, "violations": viol, "exhaustive": False},
            "assumptions": ["the base configuration is the reference for the comparison (it is itself checked against the reference model by the other properties)",
                            "configurations that cannot be compiled on this host (aarch64 / riscv64 paths, gfb254_arm64pmull) are out of reach"],
            "wall_s": round(time.time() - t0, 2), "violations": len(viol)}
